@@ -87,7 +87,16 @@ Definition set_bid_op (m : nat) (o : op) : op :=
   end.
 Definition set_bid (m : nat) (i : instr) : instr := mkI (set_bid_op m (iop i)) (iqs i) (ics i).
 
-(* circuit.data[gate_id].operation.basis_id = m ;  setter: m not in range(0, len(basis.maps)) -> ValueError.
+(* BaseQPDGate.basis_id setter (also run by both constructors) on a gate whose basis has handle b:
+   `basis_id not in range(0, len(basis.maps))` -> ValueError.  This is the class invariant `wfb`. *)
+Definition bid_in_range (benv : benv) (b : nat) (m : Z) : bool :=
+  (Z.leb 0 m && Z.ltb m (Z.of_nat (length (nth b benv []))))%bool.
+Definition setter (benv : benv) (b : nat) (m : Z) : res unit :=
+  if bid_in_range benv b m then Ok tt else Refused.
+
+(* (since fix 417f876 decompose_qpd_instructions checks every map id with the same range test before
+   assigning any; the functional model returns Refused either way)
+   circuit.data[gate_id].operation.basis_id = m ;  setter: m not in range(0, len(basis.maps)) -> ValueError.
    map ids are Python ints (Z): a negative id is out of range *)
 Definition assign1 (benv : benv) (c : circ) (p : nat) (m : Z) : res circ :=
   match nth_error c p with
